@@ -11,6 +11,7 @@
                        for every builder, DSL, request, fuel and program.
 -/
 import PS.Proofs.TtcfgSat
+import PS.Proofs.TtcfgCleanLang
 namespace PS.T
 open PS PS.G
 
@@ -254,5 +255,134 @@ theorem saturation_lang (B : Builder S T) (dsl : Dsl) (request : Ty) (fuel : Nat
     | some w =>
       have := (run_mono _ _ (saturation_rule B dsl request true fuel G h)).1 t _ _ w hg
       rw [hi] at this; cases this
+
+/-! ### the types of the non-terminals created -/
+
+theorem endsWithRec_sub : ∀ (t other : Ty) (acc tys : List Ty), Ty.endsWithRec t other acc = some tys →
+    ∀ a ∈ tys, a ∈ acc ∨ a ∈ t.arguments
+  | .arrow x y, other, acc, tys, h => by
+    rw [Ty.endsWithRec] at h
+    by_cases he : Ty.arrow x y = other
+    · simp only [he, if_true, Option.some.injEq] at h; subst h
+      intro a ha; exact Or.inl ha
+    · simp only [he, if_false] at h
+      intro a ha
+      rcases endsWithRec_sub y other (acc ++ [x]) tys h a ha with h1 | h1
+      · rcases List.mem_append.mp h1 with h2 | h2
+        · exact Or.inl h2
+        · right; simp only [List.mem_singleton] at h2; subst h2; simp [Ty.arguments]
+      · right; simp [Ty.arguments, h1]
+  | .base n, other, acc, tys, h => by
+    simp only [Ty.endsWithRec] at h
+    by_cases he : Ty.base n = other
+    · simp only [he, if_true, Option.some.injEq] at h; subst h; intro a ha; exact Or.inl ha
+    · simp [he] at h
+  | .gen n x, other, acc, tys, h => by
+    simp only [Ty.endsWithRec] at h
+    by_cases he : Ty.gen n x = other
+    · simp only [he, if_true, Option.some.injEq] at h; subst h; intro a ha; exact Or.inl ha
+    · simp [he] at h
+  | .unknown, other, acc, tys, h => by
+    simp only [Ty.endsWithRec] at h
+    by_cases he : Ty.unknown = other
+    · simp only [he, if_true, Option.some.injEq] at h; subst h; intro a ha; exact Or.inl ha
+    · simp [he] at h
+
+/-- the arguments a primitive takes at a slot are among its declared arguments -/
+theorem endsWith_sub (t other : Ty) (tys : List Ty) (h : Ty.endsWith t other = some tys) :
+    ∀ a ∈ tys, a ∈ t.arguments := by
+  intro a ha
+  rcases endsWithRec_sub t other [] tys h a ha with h1 | h1
+  · cases h1
+  · exact h1
+
+/-- neither the request's return type nor a declared argument of a primitive is the end marker
+    `UnknownType` of `TTCFG.derive` (decidable; true of every DSL built from type strings) -/
+def noUnknownDsl (dsl : Dsl) (request : Ty) : Bool :=
+  decide (request.returns ≠ Ty.unknown) && dsl.prims.all (fun p => p.ty.arguments.all (fun a => decide (a ≠ Ty.unknown)))
+
+omit [DecidableEq S] [DecidableEq T] in
+/-- the argument slots of a created rule have declared argument types -/
+theorem rowList_types (B : Builder S T) (prims : List Sym) (request : Ty) (rule : NT S T)
+    (r : Sym × (List (Ty × S) × T)) (hr : r ∈ rowList B prims request rule) (y : Ty × S) (hy : y ∈ r.2.1) :
+    ∃ p ∈ prims, y.1 ∈ p.ty.arguments := by
+  obtain ⟨P, val⟩ := r
+  obtain ⟨c, hc, h1, _, hv⟩ := (mem_rowList B prims request rule P val).mp hr
+  subst hv
+  simp only [decorate, List.mem_map] at hy
+  obtain ⟨ia, hia, e⟩ := hy
+  obtain ⟨i, a⟩ := ia
+  have ha : a ∈ c.2 := List.mem_of_getElem? ((mem_enumFrom' _ _ _).mp hia)
+  rcases (mem_candidates _ _ _ _).mp hc with ⟨j, _, ec⟩ | ⟨hp, he⟩
+  · rw [ec] at ha; cases ha
+  · exact ⟨c.1, hp, by rw [← e]; exact endsWith_sub _ _ _ he a ha⟩
+
+/-- every key of the table, every pending slot: a type satisfying `Q` -/
+theorem satLoop_types (B : Builder S T) (prims : List Sym) (request : Ty) (stackKey : Bool) (Q : Ty → Prop)
+    (hQ : ∀ p ∈ prims, ∀ a ∈ p.ty.arguments, Q a) :
+    ∀ (fuel : Nat) (todo : List (Entry S T)) (seen : List (NT S T × List (Ty × S))) (tbl r : Table S T),
+      (∀ e ∈ tbl, Q e.1.1) → (∀ x ∈ todo, Q x.1.1 ∧ ∀ y ∈ x.2.2, Q y.1) →
+      satLoop B prims request stackKey fuel todo seen tbl = some r → ∀ e ∈ r, Q e.1.1
+  | fuel, [], seen, tbl, r, ht, _, h => by
+    cases fuel <;> (simp only [satLoop, Option.some.injEq] at h; subst h; exact ht)
+  | 0, _ :: _, _, _, _, _, _, h => by simp [satLoop] at h
+  | fuel + 1, (slot, cur, stack) :: todo, seen, tbl, r, ht, hd, h => by
+    rw [satLoop] at h
+    simp only at h
+    have hd' : ∀ x ∈ todo, Q x.1.1 ∧ ∀ y ∈ x.2.2, Q y.1 := fun x hx => hd x (List.mem_cons_of_mem _ hx)
+    obtain ⟨hq1, hq2⟩ := hd _ (List.mem_cons_self ..)
+    simp only at hq1 hq2
+    by_cases hskip : (if stackKey then seen.contains ((slot.1, (slot.2, cur)), stack) else AList.contains (slot.1, (slot.2, cur)) tbl) = true
+    · simp only [hskip, if_true] at h
+      exact satLoop_types B prims request stackKey Q hQ fuel todo seen tbl r ht hd' h
+    · simp only [hskip, Bool.false_eq_true, if_false] at h
+      refine satLoop_types B prims request stackKey Q hQ fuel _ _ _ r ?_ ?_ h
+      · by_cases hc : AList.contains (slot.1, (slot.2, cur)) tbl = true
+        · simp only [hc, if_true]; exact ht
+        · have hc' : AList.contains (slot.1, (slot.2, cur)) tbl = false := by simpa using hc
+          simp only [hc', Bool.false_eq_true, if_false]
+          rw [insert_of_not_contains _ _ tbl hc']
+          intro e he
+          rcases List.mem_append.mp he with h1 | h1
+          · exact ht e h1
+          · simp only [List.mem_singleton] at h1; subst h1; exact hq1
+      · intro x hx
+        rcases List.mem_append.mp hx with h1 | h1
+        · rw [List.mem_reverse, List.mem_filterMap] at h1
+          obtain ⟨r0, hr0, e⟩ := h1
+          have hall : ∀ y ∈ r0.2.1 ++ stack, Q y.1 := by
+            intro y hy
+            rcases List.mem_append.mp hy with h2 | h2
+            · obtain ⟨p, hp, ha⟩ := rowList_types B prims request _ r0 hr0 y h2
+              exact hQ p hp _ ha
+            · exact hq2 y h2
+          cases hm : r0.2.1 ++ stack with
+          | nil => simp [hm] at e
+          | cons x0 rest =>
+            simp only [hm, Option.some.injEq] at e
+            subst e
+            rw [hm] at hall
+            exact ⟨hall x0 (List.mem_cons_self ..), fun y hy => hall y (List.mem_cons_of_mem _ hy)⟩
+        · exact hd' x h1
+
+/-- **no non-terminal of the saturation table has the end-marker type** -/
+theorem saturation_noUnknown (B : Builder S T) (dsl : Dsl) (request : Ty) (stackKey : Bool) (fuel : Nat) (G : TT S T)
+    (hd : noUnknownDsl dsl request = true) (h : saturationTable B dsl.prims request stackKey fuel = some G) :
+    noUnknownKey G = true := by
+  unfold noUnknownDsl at hd
+  simp only [Bool.and_eq_true, decide_eq_true_eq, List.all_eq_true] at hd
+  unfold saturationTable at h
+  cases hl : satLoop B dsl.prims request stackKey fuel [((request.returns, B.init.1), B.init.2, [])] [] [] with
+  | none => simp [hl] at h
+  | some tbl =>
+    simp only [hl, Option.some.injEq] at h
+    subst h
+    have := satLoop_types B dsl.prims request stackKey (fun a => a ≠ Ty.unknown) (fun p hp a ha => hd.2 p hp a ha)
+      fuel _ [] [] tbl (by intro e he; cases he)
+      (by intro x hx; rw [List.mem_singleton.mp hx]; exact ⟨hd.1, by intro y hy; cases hy⟩) hl
+    unfold noUnknownKey
+    rw [List.all_eq_true]
+    intro e he
+    simpa using this e he
 
 end PS.T
